@@ -38,6 +38,7 @@ func profileByName(name string, r *rand.Rand) Profile {
 	case "async-lag":
 		p.AppLagPct, p.WStorage, p.CrashPct, p.WCrash = 90, 6, 40, 4
 		p.ReadyLagPct = 50
+		p.SelfStallPct = 40
 	case "snapshot":
 		p.CompactPct, p.WMisc, p.CCPct, p.DropPct, p.WNet, p.CrashPct, p.WCrash, p.WPropose = 100, 9, 30, 10, 5, 30, 4, 9
 	case "partition-lag":
@@ -45,10 +46,21 @@ func profileByName(name string, r *rand.Rand) Profile {
 		// changes with starved storage threads
 		p.AppLagPct, p.WNet, p.DropPct, p.StalePct, p.WTick, p.CampaignPct, p.CrashPct, p.WPropose, p.ReadyLagPct = 90, 6, 10, 50, 22, 40, 15, 12, 40
 		p.HostileMin, p.CalmMin = 120, 150
+		p.SelfStallPct = 60
+	case "rival-leaders":
+		// two or more nodes keep taking leadership from each other while their
+		// uncommitted tails reach (almost) only one follower, whose storage
+		// acknowledgements come back late: the same index is written, overwritten and
+		// restored under acknowledgements that are several terms old
+		p.AppLagPct, p.WNet, p.DropPct, p.StalePct, p.WTick, p.CampaignPct, p.CrashPct, p.WPropose, p.ReadyLagPct = 85, 2, 5, 30, 20, 100, 5, 14, 20
+		p.WMisc, p.CCPct, p.TransferPct, p.CompactPct = 12, 5, 5, 10
+		p.HostileMin, p.CalmMin = 200, 100
+		p.SelfStallPct, p.FavourPct = 100, 80
 	case "snapshot-lag":
 		// snapshots and compaction while storage threads lag and terms change
 		p.CompactPct, p.WMisc, p.AppLagPct, p.DropPct, p.WTick, p.CampaignPct, p.WNet, p.CrashPct, p.CCPct, p.WPropose = 100, 9, 85, 10, 22, 40, 5, 15, 30, 9
 		p.ReadyLagPct = 75
+		p.SelfStallPct = 50
 	case "churn":
 		p.CCPct, p.WMisc, p.CrashPct, p.DropPct = 100, 9, []int{0, 10}[r.Intn(2)], []int{0, 5}[r.Intn(2)]
 	case "churn-lag":
@@ -78,6 +90,7 @@ func profileByName(name string, r *rand.Rand) Profile {
 		p.StalePct = []int{0, 50, 100}[r.Intn(3)]
 		p.CCPct = []int{0, 30, 100}[r.Intn(3)]
 		p.ReadyLagPct = []int{0, 0, 40, 80}[r.Intn(4)]
+		p.SelfStallPct = []int{0, 0, 30, 60}[r.Intn(4)]
 	default:
 		panic("harness: unknown profile " + name)
 	}
@@ -88,7 +101,7 @@ func profileByName(name string, r *rand.Rand) Profile {
 var profileMix = map[string][]string{
 	"C01": {"crash-heavy", "crash-heavy", "async-lag", "churn", "partition", "kitchen-sink", "snapshot"},
 	"C02": {"election-storm", "election-storm", "crash-heavy", "async-lag", "partition", "transfer", "churn", "kitchen-sink"},
-	"C03": {"partition", "partition-lag", "partition-lag", "crash-heavy", "async-lag", "kitchen-sink"},
+	"C03": {"partition", "partition-lag", "partition-lag", "rival-leaders", "rival-leaders", "crash-heavy", "async-lag", "kitchen-sink"},
 	"C04": {"election-storm", "crash-heavy", "async-lag", "partition", "churn", "transfer", "kitchen-sink"},
 	"C05": {"crash-heavy", "crash-heavy", "async-lag", "partition-lag", "partition-lag", "snapshot", "kitchen-sink"},
 	"C06": {"steady", "flow", "churn", "partition", "crash-heavy", "kitchen-sink"},
@@ -278,7 +291,7 @@ func (w *World) enabledWork(r *rand.Rand) []workItem {
 			if len(n.aplQ) > 0 {
 				items = append(items, workItem{k: "aplthr", n: id, lag: true})
 			}
-			if len(n.selfApp) > 0 {
+			if len(n.selfApp) > 0 && !(id == w.stallNode && w.step < w.stallEnd) {
 				items = append(items, workItem{k: "self", n: id, a: 0})
 			}
 			if len(n.selfApl) > 0 {
@@ -343,6 +356,21 @@ func (w *World) Gen(r *rand.Rand) Action {
 		}
 		if w.hostile {
 			w.phaseEnd = w.step + p.HostileMin + r.Intn(p.HostileMin*3+1)
+			if p.SelfStallPct > 0 && pct(r, p.SelfStallPct) {
+				// a slow acknowledgement path: the append thread keeps writing, but
+				// what it reports comes back to raft only much later (possibly
+				// several terms later)
+				var as []uint64
+				for _, id := range w.ids {
+					if n := w.nodes[id]; n.up() && n.cfg.Async {
+						as = append(as, id)
+					}
+				}
+				if len(as) > 0 {
+					w.stallNode = as[r.Intn(len(as))]
+					w.stallEnd = w.phaseEnd + r.Intn(p.CalmMin+1)
+				}
+			}
 		} else {
 			w.phaseEnd = w.step + p.CalmMin + r.Intn(p.CalmMin*2+1)
 			if len(w.cut) > 0 {
@@ -433,6 +461,11 @@ func (w *World) Gen(r *rand.Rand) Action {
 			}
 			if (it.k == "ready" || it.k == "aready") && pct(r, p.ReadyLagPct) {
 				continue
+			}
+			if it.k == "deliver" && p.FavourPct > 0 && hostile && w.step < w.stallEnd {
+				if nm := w.net[int(it.a)]; nm != nil && nm.typ == pb.MsgApp && nm.to != w.stallNode && len(nm.data) > 40 && pct(r, p.FavourPct) {
+					return Action{K: "drop", A: it.a}
+				}
 			}
 			if it.k == "deliver" {
 				if hostile && pct(r, p.DropPct) {
